@@ -514,6 +514,10 @@ fn gen_headers(rng: &mut Rng) -> Vec<(String, String)> {
                 "garbage",
                 "",
                 "text/plain; charset=euc-kr",
+                "text/plain; charset=iso-2022-jp",
+                "text/plain; charset=iso-2022-kr",
+                "text/plain; charset=hz-gb-2312",
+                "text/html; charset=replacement",
             ])
             .to_string()
         } else {
@@ -547,6 +551,11 @@ fn gen_body(rng: &mut Rng) -> Vec<u8> {
         6 => br#"{"a":"wrong"}"#.to_vec(),
         7 => r#"{"a":7,"b":"é","extra":[1,2]}"#.as_bytes().to_vec(),
         8 => rng.bytes(40),
+        // 7-bit bodies that are *not* plain ASCII text in stateful encodings
+        9 if rng.chance(1, 2) => {
+            let opts: [&[u8]; 4] = [b"plain ascii", b"shift\x0eout\x0fin", b"\x1b$B$3$s$K$A$O\x1b(B", b"\x1b(Jyen\x1b(B"];
+            opts[rng.usize_below(4)].to_vec()
+        }
         _ => {
             let n = rng.range(1000, 100_000) as usize;
             vec![b'z'; n]
@@ -609,6 +618,24 @@ fn reference_text(headers: &[(String, String)], body: &[u8]) -> Option<Result<Ve
             Err(_) => Err(()),
         }),
         "latin1" | "iso-8859-1" | "windows-1252" => Some(Ok(vec![body.iter().map(|b| windows_1252(*b)).collect()])),
+        // the WHATWG "replacement" encoding: any non-empty body is an error
+        "replacement" | "iso-2022-kr" | "iso-2022-cn" | "iso-2022-cn-ext" | "hz-gb-2312" | "csiso2022kr" => {
+            Some(if body.is_empty() { Ok(vec![String::new()]) } else { Err(()) })
+        }
+        // ISO-2022-JP is stateful and 7-bit: shift-out / shift-in are errors, escape sequences switch
+        // character sets (not decoded by this reference), everything else in ASCII state is itself
+        "iso-2022-jp" | "csiso2022jp" => {
+            if body.iter().any(|b| *b == 0x0e || *b == 0x0f) {
+                Some(Err(()))
+            } else if !body.is_ascii() {
+                Some(Err(()))
+            } else if body.contains(&0x1b) {
+                // must at least not come back as the raw bytes (an error is fine too)
+                Some(Ok(vec![]))
+            } else {
+                Some(Ok(vec![String::from_utf8_lossy(body).to_string()]))
+            }
+        }
         _ => None,
     }
 }
@@ -652,7 +679,7 @@ fn judge(spec: &SendSpec, result: &ResSpec, got: &Got) -> Result<(), (String, St
                 // a success response may only turn into an error through its body expectation
                 let body_err_ok = match spec.expect {
                     Expect::Bytes => false,
-                    Expect::Text => !matches!(reference_text(headers, body), Some(Ok(_))),
+                    Expect::Text => !matches!(reference_text(headers, body), Some(Ok(alts)) if !alts.is_empty()),
                     Expect::Json => serde_json::from_slice::<J>(body).is_err(),
                 };
                 if body_err_ok && spec.api != HApi::LegacyAsync {
@@ -686,6 +713,11 @@ fn judge(spec: &SendSpec, result: &ResSpec, got: &Got) -> Result<(), (String, St
                     }
                 }
                 Expect::Text => match reference_text(headers, body) {
+                    Some(Ok(alts)) if alts.is_empty() => {
+                        if *gb == GotBody::Text(String::from_utf8_lossy(body).to_string()) {
+                            return Err(("text_decoded_wrongly".into(), "a body with escape sequences of a stateful charset came back undecoded".into()));
+                        }
+                    }
                     Some(Ok(alts)) => {
                         if !alts.iter().any(|a| *gb == GotBody::Text(a.clone())) {
                             return Err(("text_decoded_wrongly".into(), format!("a conforming decoder yields {:?}, received {}", alts.first().map(|s| s.chars().take(40).collect::<String>()), short_body(gb))));
